@@ -29,7 +29,7 @@ CLAIMED["C02"] = dict(
     technique="Coq proof (invariants over all answer interleavings; filter characterisation) + model/implementation correspondence",
     ref="5/C02")
 CLAIMED["C08"] = dict(
-    text="Coq theorems. One tick (C08_ticker_confluent, C08_same_participants): for deterministic components and an acyclic single-source wiring, any two runs of a tick under arbitrary answer orders dispatch every component with the same kind, time and changes (induction on the rank of the wiring, using the gate and input-characterisation invariants); complete runs dispatch the same set. Whole flat simulations (C08_whole_simulation): in the schedule-explicit model - the master picks the earliest pending wakeups, every tick is ANY complete run of the ticker, every component answers what its DeviceComponent computes from its own state, interrupts are applied between ticks - two runs of the same script under arbitrary, unrelated answer orders tick after tick give every device the same sequence of (time, inputs) and leave equivalent component states and wakeup tables (one-tick confluence generalised to root lists equal as sets and component states equal as dictionaries, then induction over the script); every answer strategy is such a run and different strategies give different traces (C08_strategies_are_schedules, C08_schedules_example); the harness's table devices qualify (C08_whole_simulation_table). Tied to the real classes: every answer order of small wirings on the real Ticker, all runs compared inside Coq (21); whole flat and nested simulations on the in-memory bus and under 5-10 seeded delaying / reordering delivery schedules of a conforming broker-like bus, per-device sequences compared in Coq (22) and with Model/Sim.v; on every flat case the schedule-explicit model (first-answers-first and last-answers-first) is compared with Model/Sim.v (23).",
+    text="Coq theorems. One tick (C08_ticker_confluent, C08_same_participants): for deterministic components and an acyclic single-source wiring, any two runs of a tick under arbitrary answer orders dispatch every component with the same kind, time and changes (induction on the rank of the wiring, using the gate and input-characterisation invariants); complete runs dispatch the same set. Whole flat simulations (C08_whole_simulation): in the schedule-explicit model - the master picks the earliest pending wakeups, every tick is ANY complete run of the ticker, every component answers what its DeviceComponent computes from its own state, interrupts are applied between ticks - two runs of the same script under arbitrary, unrelated answer orders tick after tick give every device the same sequence of (time, inputs) and leave equivalent component states and wakeup tables (one-tick confluence generalised to root lists equal as sets and component states equal as dictionaries, then induction over the script); every answer strategy is such a run and different strategies give different traces (C08_strategies_are_schedules, C08_schedules_example); the harness's table devices qualify (C08_whole_simulation_table). And every schedule computes what the deterministic whole-simulation model computes (C08_every_schedule_is_sim, C08_sim_run_is_every_schedule): Model/Sim.v's fold over a level's topological order, read as a trace of the ticker, satisfies everything the confluence argument needs (gate, input characterisation, answers by the component function), so any complete run under any answer order updates the same devices with the same changes - Model/Sim.v, on which the whole-simulation theorems of C02, C03, C05, C09 and C10 are stated and which every in-memory-bus run of the real schedulers is compared with, is thereby proved to be the result of EVERY schedule of a flat simulation. Tied to the real classes: every answer order of small wirings on the real Ticker, all runs compared inside Coq (21); whole flat and nested simulations on the in-memory bus and under 5-10 seeded delaying / reordering delivery schedules of a conforming broker-like bus, per-device sequences compared in Coq (22) and with Model/Sim.v; on every flat case the schedule-explicit model (first-answers-first and last-answers-first) is compared with Model/Sim.v (23).",
     note="Partial: the whole-simulation theorem is for one scheduler level (flat simulations) at the granularity of the ticker's answers; system simulations and the bus below (per-topic queues, latency, interrupts racing with a tick) are explored against the real schedulers on the delaying bus; the shipped Kafka classes are never executed (no broker in the sandbox) -- only the StateConsumer/StateProducer contract they implement is exercised.",
     technique="Coq proof (one-tick confluence by induction on wiring rank; whole-run confluence of the schedule-explicit model) + exhaustive answer-order correspondence + delayed-delivery exploration compared in Coq",
     ref="5/C08")
